@@ -91,3 +91,7 @@ Proof. vm_compute. reflexivity. Qed.
 (* proxy_conn.go writeResponse, tail: whatever error writing the response returned, the client connection ends (errClose) *)
 Lemma ob_write_error_closes : wr_write_error_closes = true.
 Proof. vm_compute. reflexivity. Qed.
+
+(* proxy_handler.go: the Trailer announcement is joined with ", ", late trailers go under net/http.TrailerPrefix *)
+Lemma ob_handler_trailer_strings : hw_trailer_sep = b ", " /\ hw_trailer_prefix = b "Trailer:".
+Proof. vm_compute. split; reflexivity. Qed.
